@@ -51,6 +51,8 @@ let o_asin (z:q) : q = q_of_float (Float.asin (Float.max (-1.0) (Float.min 1.0 (
 let o_norm (w:vec) : q =
   q_of_float (Float.hypot (Float.hypot (float_of_q w.vx) (float_of_q w.vy)) (float_of_q w.vz))
 
+let o_cos (a:q) : q = q_of_float (Float.cos (float_of_q a))
+
 let fl (x:q) = Printf.sprintf "%h" (float_of_q x)
 let b2s b = if b then "1" else "0"
 
@@ -105,6 +107,59 @@ let handle (line:string) : string =
       let target_hits (r : q list * q list array) = fst r in
       let occ_hits (o:int) (r : q list * q list array) = (snd r).(o) in
       b2s (rays_visible target_hits occ_hits d batches (List.init nocc (fun i -> i)))
+  | "OBJ" ->
+      (* object pipeline: local-frame vertices + edges -> augmented vertices, flags, windows, ray grid *)
+      let h = next_q () in let v = next_q () in
+      let mode = next () in
+      let p1 = next_q () in let p2 = next_q () in
+      let nv = next_int () in
+      let verts = Array.of_list (times nv next_vec) in
+      let ne = next_int () in
+      let edges = times ne (fun () -> let i = next_int () in let j = next_int () in (verts.(i), verts.(j))) in
+      let vl = Array.to_list verts in
+      let (ahead, behind) = crosses edges in
+      let aug = augment vl edges in
+      let nextra = List.length aug - nv in
+      let angs = List.map (sph pi_q o_atan2 o_asin o_norm) aug in
+      let fmin = List.fold_left Float.min infinity and fmax = List.fold_left Float.max neg_infinity in
+      let azs = List.map (fun (a, _) -> float_of_q a) angs and alts = List.map (fun (_, b) -> float_of_q b) angs in
+      let back a = if a >= 0.0 then a -. Float.pi else a +. Float.pi in
+      let ys = List.filter_map (fun e -> match edge_cross e with Some y -> Some (Float.abs (float_of_q y)) | None -> None) edges in
+      let minx = fmin (List.map (fun w -> Float.abs (float_of_q w.vx)) vl) in
+      let diag = Printf.sprintf "%s %s %d %h %h %h %h %h %h %h %h" (b2s ahead) (b2s behind) nextra
+                   (fmin azs) (fmax azs) (fmin alts) (fmax alts) (fmin (List.map back azs)) (fmax (List.map back azs))
+                   (fmin ys) minx in
+      (match object_windows pi_q o_atan2 o_asin o_norm h v vl edges with
+       | None -> "NONE " ^ diag
+       | Some ws ->
+         let (rch, rcv, altscale) =
+           if mode = "D" then (let (a, b) = density_counts pi_q h v p1 p2 in (a, b, true)) else (p1, p2, false) in
+         let wstr = String.concat " " (string_of_int (List.length ws) ::
+                       List.concat_map (fun w -> [fl w.h_lo; fl w.h_hi; fl w.v_lo; fl w.v_hi]) ws) in
+         (match object_rays o_cos h v rch rcv altscale ws with
+          | None -> "ASSERT " ^ diag ^ " " ^ wstr
+          | Some rays ->
+            (* per-row summary (rows = rays of equal altitude): alt n min max sum sum-of-squares of the azimuths *)
+            let tbl : (float, (int * float * float * float * float) ref) Hashtbl.t = Hashtbl.create 64 in
+            List.iter (fun (a, b) ->
+              let az = float_of_q a and al = float_of_q b in
+              let az = if az < -. Float.pi +. 1e-6 then az +. 2.0 *. Float.pi else az in
+              match Hashtbl.find_opt tbl al with
+              | None -> Hashtbl.add tbl al (ref (1, az, az, az, az *. az))
+              | Some r -> let (n, lo, hi, s, s2) = !r in
+                          r := (n + 1, Float.min lo az, Float.max hi az, s +. az, s2 +. az *. az)) rays;
+            let rows = List.sort compare (Hashtbl.fold (fun al r acc -> (al, !r) :: acc) tbl []) in
+            "RAYS " ^ diag ^ " " ^ wstr ^ " " ^ string_of_int (List.length rays) ^ " " ^ string_of_int (List.length rows) ^ " " ^
+            String.concat " " (List.map (fun (al, (n, lo, hi, s, s2)) ->
+              Printf.sprintf "%h %d %h %h %h %h" al n lo hi s s2) rows)))
+  | "S2D" ->
+      let oriented = next_bool () in
+      let c = next_vec () in
+      let r = next_q () in let heading = next_q () in let angle = next_q () in
+      let p = next_vec () in
+      let res = can_see_2d pi_q o_atan2 o_norm oriented c r heading angle p in
+      let m = sector_margin pi_q o_atan2 o_norm oriented c r heading angle p in
+      Printf.sprintf "%s %s" (b2s res) (fl m)
   | "REQ" | "OP" | "DEF" as cmd ->
       let nobj = next_int () in
       let objs = List.init nobj (fun i -> i) |> List.map (fun i -> { oid = nat_of_int i; occluding = next_bool () }) in
